@@ -357,6 +357,12 @@ class Report:
         self.assumptions = []
         self._distinct = set()
         self._replay_n = 0
+        for fn in os.listdir(REPLAYS):   # stale replay files of earlier runs of this check
+            if fn.startswith("%s-%s-" % (prop, tier)):
+                try:
+                    os.remove(os.path.join(REPLAYS, fn))
+                except OSError:
+                    pass
 
     def obligations(self, props_result, checker_cmd):
         obs = props_result["obligations"]
